@@ -54,8 +54,19 @@ func (g *SG) smallInt(d int) Expr {
 	return &Bin{Op: []string{"+", "-", "*", "+", "-"}[g.R.Intn(5)], L: g.smallInt(d - 1), R: g.smallInt(d - 1)}
 }
 
-// cond builds a boolean condition over the locals.
+// cond builds a boolean condition over the locals; a quarter of the conditions are passed
+// through the observer tb(id, cond) so that the number and order of condition evaluations
+// is part of the trace.
 func (g *SG) cond(d int) Expr {
+	c := g.cond0(d)
+	if g.R.Intn(4) == 0 {
+		g.Stats["observed_condition"]++
+		return &CallE{Name: "tb", Args: []Expr{ilit(g.id()), c}}
+	}
+	return c
+}
+
+func (g *SG) cond0(d int) Expr {
 	switch g.R.Intn(9) {
 	case 0:
 		return &Ref{"vt"}
@@ -63,7 +74,7 @@ func (g *SG) cond(d int) Expr {
 		return &Not{&Ref{"vt"}}
 	case 2:
 		if d > 0 {
-			return &Bin{Op: []string{"&&", "||"}[g.R.Intn(2)], L: g.cond(d - 1), R: g.cond(d - 1)}
+			return &Bin{Op: []string{"&&", "||"}[g.R.Intn(2)], L: g.cond0(d - 1), R: g.cond0(d - 1)}
 		}
 		fallthrough
 	case 3:
